@@ -19,6 +19,7 @@ import (
 	"sort"
 	"strings"
 	"sync/atomic"
+	"syscall"
 	"testing"
 	"time"
 
@@ -67,7 +68,7 @@ func TestVerifC18Sockets(t *testing.T) {
 	rep := report.New("C18 sockets after Close")
 	defer rep.Write()
 	kinds := []string{"udp", "udp-truncated(tcp fallback)", "tcp", "tcp+pipeline", "tls", "tls+pipeline", "https", "h3", "quic"}
-	rep.Rule = fmt.Sprintf("real NewUpstream for every kind %v against local servers on loopback: baseline socket set, one exchange - successful against a healthy server (so that connections exist and idle in the pool), failing during the TLS handshake against a server whose certificate is not trusted or that does not speak TLS, given up by the caller after 1 s against a server that takes the query and never answers - then Close (twice), then up to 8 s of settling; "+
+	rep.Rule = fmt.Sprintf("real NewUpstream for every kind %v against local servers on loopback: baseline socket set, one exchange - successful against a healthy server (so that connections exist and idle in the pool), failing during the TLS handshake against a server whose certificate is not trusted or that does not speak TLS, given up by the caller after 1 s against a server that takes the query and never answers, or still dialling (connect held in the socket control hook until Close has returned; TLS hello never answered; dial timeout raised to 60 s) - then Close (twice), then up to 8 s of settling; "+
 		"oracle: the process's socket inode set equals the baseline (no upstream socket, pooled keep-alive connection, half-dialled connection or quic UDP socket survives Close; the garbage collector is off during the audit so that finalizers cannot hide a connection nobody closed); Close returns and is idempotent; distinct = distinct upstream kinds", kinds)
 	if sh, _ := report.Shard(); sh != 0 {
 		rep.Eval("idle-shard")
@@ -227,6 +228,15 @@ func TestVerifC18Sockets(t *testing.T) {
 			variants = append(variants, variant{k, "silent"})
 		}
 	}
+	// Close while the dial is still in progress. "dial-held": the connect is held in the socket control hook until Close has
+	// returned, then completes against a healthy server. "handshake-stalled": the server accepts the TCP connection and never
+	// answers the TLS hello. The dial timeout is raised to 60 s: only Close can end these dials within the audit.
+	for _, k := range []string{"tcp", "tcp+pipeline", "tls", "tls+pipeline", "https"} {
+		variants = append(variants, variant{k, "dial-held"})
+	}
+	for _, k := range []string{"tls", "tls+pipeline", "https"} {
+		variants = append(variants, variant{k, "handshake-stalled"})
+	}
 	for _, vr := range variants {
 		kind := vr.kind
 		silent.Store(vr.peer == "silent")
@@ -259,7 +269,7 @@ func TestVerifC18Sockets(t *testing.T) {
 		switch vr.peer {
 		case "untrusted-certificate":
 			tlsCfg = &tls.Config{RootCAs: x509.NewCertPool(), ServerName: "localhost"} // trusts nobody
-		case "not-a-tls-server":
+		case "not-a-tls-server", "handshake-stalled":
 			switch kind {
 			case "https":
 				addr = fmt.Sprintf("https://127.0.0.1:%d/dns-query", port)
@@ -287,25 +297,82 @@ func TestVerifC18Sockets(t *testing.T) {
 					break
 				}
 			}
-			u, err := NewUpstream(addr, Opt{TLSConfig: tlsCfg})
+			opt := Opt{TLSConfig: tlsCfg}
+			entered, release := make(chan struct{}, 16), make(chan struct{})
+			duringDial := vr.peer == "dial-held" || vr.peer == "handshake-stalled"
+			if duringDial {
+				opt.DialTimeout = 60 * time.Second
+			}
+			if vr.peer == "dial-held" {
+				opt.Control = func(network, address string, c syscall.RawConn) error {
+					entered <- struct{}{}
+					<-release
+					return nil
+				}
+			}
+			u, err := NewUpstream(addr, opt)
 			if err != nil {
 				rep.Violate("C18:sockets:new-upstream:"+kind, err.Error(), nil)
 				return
+			}
+			if duringDial {
+				xdone := make(chan struct{})
+				go func() {
+					defer close(xdone)
+					ctx, cancel := context.WithTimeout(context.Background(), 30*time.Second)
+					defer cancel()
+					if m, _ := u.ExchangeContext(ctx, query); m != nil && vr.peer == "handshake-stalled" {
+						rep.Violate("C18:sockets:exchange-succeeded-with-bad-peer:"+kind, "the exchange succeeded although the TLS handshake never completed", nil)
+					}
+				}()
+				if vr.peer == "dial-held" {
+					select {
+					case <-entered:
+					case <-time.After(10 * time.Second):
+						rep.Note(kind + ": the dial never reached the socket control hook")
+					}
+				} else {
+					time.Sleep(500 * time.Millisecond) // the TLS hello is out, the server says nothing
+				}
+				cdone := make(chan struct{})
+				go func() { defer close(cdone); u.Close(); u.Close() }()
+				select {
+				case <-cdone:
+				case <-time.After(20 * time.Second):
+					rep.Violate("C18:sockets:close-blocks:"+kind, "Close did not return within 20 s while a dial was in progress", nil)
+				}
+				close(release) // the held connect now completes - after Close
+				select {
+				case <-xdone:
+				case <-time.After(15 * time.Second):
+					rep.Violate("C18:sockets:exchange-hangs-after-close:"+kind, "15 s after Close returned the exchange whose dial was in progress is still running (its own deadline is 30 s): Close does not fail it", nil)
+				}
 			}
 			xd := 5 * time.Second
 			if vr.peer == "silent" {
 				xd = time.Second
 			}
 			ctx, cancel := context.WithTimeout(context.Background(), xd)
-			m, xerr := u.ExchangeContext(ctx, query)
+			var m any
+			var xerr error
+			if !duringDial {
+				if mm, e := u.ExchangeContext(ctx, query); mm != nil {
+					m, xerr = mm, e
+				} else {
+					xerr = e
+				}
+			}
 			cancel()
 			if m != nil && vr.peer == "silent" {
 				rep.Violate("C18:sockets:reply-from-silent-peer:"+kind, "the exchange returned a message although the server never answered", nil)
 			}
+			if duringDial {
+				m = nil
+			}
 			if m == nil && vr.peer == "healthy" {
 				rep.Note(fmt.Sprintf("%s: exchange against the local server failed (%v); socket audit still performed", kind, xerr))
 			}
-			if m != nil && vr.peer != "healthy" && vr.peer != "silent" {
+			if m != nil && vr.peer != "healthy" && vr.peer != "silent" && !duringDial {
 				rep.Violate("C18:sockets:exchange-succeeded-with-bad-peer:"+kind, "the exchange succeeded although the peer cannot be authenticated", nil)
 			}
 			done := make(chan any, 1)
